@@ -1,5 +1,6 @@
 /- dsmodel_theta: `theta` = update/compact/set-operation histories, `hash` = Murmur/canonicalisation tie. -/
 import DSModel.Theta.Driver
+import DSModel.Tuple.Driver
 import DSModel.DriverLoop
 import DSGen.Theta
 open DS
@@ -30,4 +31,5 @@ def main (args : List String) : IO UInt32 := do
   match args with
   | ["hash"] => runDriver () (fun _ w => ((), hashStep w))
   | ["theta"] => runDriver (#[] : Theta.Objs) (Theta.stepLine thetaTunables)
-  | _ => IO.eprintln "usage: dsmodel_theta hash|theta"; return 2
+  | ["tuple"] => runDriver ({} : Tuple.DState) (Tuple.stepLine thetaTunables)
+  | _ => IO.eprintln "usage: dsmodel_theta hash|theta|tuple"; return 2
